@@ -160,16 +160,21 @@ def script_of(kinds):
 class AssemblyOb(TemplateObligation):
     budget = 4
 
-    def __init__(self, kinds, dialect="ansi", tsql_mode=False, same_text=False, go=()):
+    def __init__(self, kinds, dialect="ansi", tsql_mode=False, same_text=False, go=(), semi=()):
         self.kinds, self.dialect, self.tsql_mode, self.same_text = list(kinds), dialect, tsql_mode, same_text
         self.stmts = script_of(kinds)
-        if same_text:
+        if same_text == "around":
+            # p, s0, s1, .., s0: the same text again after the others; neither occurrence is the script's first piece and the
+            # script ends with ';', so the two pieces the real splitter cuts are byte-identical too
+            self.stmts = ["SELECT ca FROM zqt90"] + self.stmts + self.stmts[:1]
+        elif same_text:
             self.stmts = [self.stmts[0]] + self.stmts[:1] + self.stmts[1:]
         # T-SQL no-semicolon mode: statements separated by a line break, or by a GO batch separator at the positions in `go`;
         # the repository's own statement listing walks the parse tree of the whole script (ROOT mode of the lifted runner)
-        self.seps = [("\nGO\n" if i in go else "\n") for i in range(len(self.stmts) - 1)] if tsql_mode else None
-        self.key = "%s/%s/%s%s%s" % ("tsql-no-semicolon" if tsql_mode else "assembly", dialect, "+".join(kinds), "/same-text" if same_text else "",
-                                     ("/go@" + ",".join(map(str, go))) if go else "")
+        # `semi`: positions where the statement IS terminated by a semicolon (a script may mix both styles)
+        self.seps = [("\nGO\n" if i in go else ";\n" if i in semi else "\n") for i in range(len(self.stmts) - 1)] if tsql_mode else None
+        self.key = "%s/%s/%s%s%s" % ("tsql-no-semicolon" if tsql_mode else "assembly", dialect, "+".join(kinds), ("/same-text-" + same_text) if isinstance(same_text, str) else "/same-text" if same_text else "",
+                                     (("/go@" + ",".join(map(str, go))) if go else "") + (("/semi@" + ",".join(map(str, semi))) if semi else ""))
 
     def prepare(self):
         self.script = LiftedScript(self.stmts, self.dialect, seps=self.seps)
@@ -210,7 +215,7 @@ class AssemblyOb(TemplateObligation):
     def concretise(self, verdict, model):
         out = super().concretise(verdict, model)
         out["stmts"] = [ps.render(out["names"]) for ps in self.script.stmts]
-        out["sql"] = self.script.render_script(out["names"]) if self.tsql_mode else ";\n".join(out["stmts"])
+        out["sql"] = self.script.render_script(out["names"]) if self.tsql_mode else ";\n".join(out["stmts"]) + (";" if self.same_text == "around" else "")
         return out
 
     def replay(self, conc, verdict_ok):
@@ -268,11 +273,16 @@ def obligations(tier, seed):
             obs.append(AssemblyOb(ks, d))
     for ks in [("insert", "insert_star"), ("ctas", "insert_star"), ("ctas", "insert_unq_join"), ("insert", "insert_star", "insert_star")]:
         obs.append(AssemblyOb(ks, "ansi"))
+    # the first statement's text once more after an order-sensitive statement (names free: it may rename / drop what was written)
+    for ks in [("insert", "rename"), ("insert", "drop"), ("insert_star", "rename"), ("values", "drop")]:
+        obs.append(AssemblyOb(ks, "ansi", same_text="around"))
     for ks in [("insert", "select_into"), ("select", "select_into"), ("select_into", "select_into"), ("insert", "drop", "insert"), ("select", "insert", "select_into")]:
         obs.append(AssemblyOb(ks, "tsql", tsql_mode=True))
     for ks, go in [(("insert", "select_into"), (0,)), (("insert", "insert", "select_into"), (0,)), (("insert", "insert", "select_into"), (1,)),
                    (("insert", "select", "insert"), (0, 1))]:
         obs.append(AssemblyOb(ks, "tsql", tsql_mode=True, go=go))
+    for ks, semi in [(("insert", "insert", "select_into"), (0,)), (("insert", "select_into", "insert"), (1,))]:
+        obs.append(AssemblyOb(ks, "tsql", tsql_mode=True, semi=semi))
     obs.append(AssemblyOb(("insert", "drop"), "tsql", tsql_mode=True, same_text=True))
     obs.append(AssemblyOb(("values", "drop"), "tsql", tsql_mode=True, same_text=True))
     for o in obs:
